@@ -41,6 +41,13 @@ def out_of_domain_values(kind, row, rng):
             ("str-uri-http", "http://host.example.com"), ("str-uri-noscheme", "host.example.com"), ("str-uri-aaa-slash", "aaa:/host.example.com"),
             ("bytes-uri-http", b"http://host.example.com"), ("bytes-uri-aaa", b"aaa://host.example.com"), ("bytes-bad-utf8-uri", b"aaa://\xff\xfe.example.com"),
             ("bool", True)]
+    # a well-formed DiameterURI followed by something no URI may end with (the whole value is judged, not a prefix of it)
+    for i, junk in enumerate(("/", "\n", " ", "\t", "/path/", ":3868/", ";transport=tcp\n", ";transport=tcp;protocol=diameter /", "\r\n", "/\x00")):
+        base = "aaa://host.example.com" if i % 2 == 0 else "aaas://h1.realm.example.org:3868"
+        if junk.startswith(":"):
+            base = "aaa://host.example.com"
+        vals.append(("str-uri-trailing-junk-%d" % i, base + junk))
+        vals.append(("bytes-uri-trailing-junk-%d" % i, (base + junk).encode()))
     for w in range(0, 13):
         vals.append(("bytes-w%d" % w, bytes((i * 37 + 1) & 0xff for i in range(w))))
     vals.append(("bytes-w4-zero", bytes(4)))
@@ -119,7 +126,7 @@ def canonical(kind, name, row, value):
             s = value
         else:
             return None
-        if not re.match(r"aaas?://[^/\s]+$", s):
+        if not re.match(r"aaas?://[^/\s\x00]+\Z", s):
             return None
         return "unjudged-uri:" + s      # acceptance of a particular URI is the library's call; scheme is judged
     if kind in ("Unsigned32", "Unsigned64", "Integer64"):
